@@ -194,11 +194,25 @@ def run_case(ctx, case):
         ctx.note_case(case, True, fingerprint=str(hash(gen.fingerprint(inst))))
     elif kind == "reuse":
         shared = ORToolsSolver()
+        if case["seed"] % 3 == 0:
+            # the public limit attribute is changed between solves of one solver object
+            shared = ORToolsSolver(max_time_in_seconds=1e-4)
+            try:
+                shared.solve(gen.build(case["instances"][0]))
+            except NoSolutionFoundError:
+                pass
+            shared.max_time_in_seconds = None
+            ctx.count("limit_removed_between_solves")
         for k, inst in enumerate(case["instances"]):
             instance = gen.build(inst)
             try:
                 S1 = shared.solve(instance)
                 S2 = ORToolsSolver().solve(instance)
+            except NoSolutionFoundError as e:
+                ctx.violation("c03_no_solution_without_time_limit",
+                              {"error": str(e)[:200], "position": k, "instance": inst,
+                               "note": "solver object reused; no limit set at this point"})
+                return
             except Exception as e:
                 ctx.violation("c03_solver_raised", {"error": repr(e)[:300], "position": k,
                                                     "instance": inst})
